@@ -21,7 +21,8 @@ CLAIMS = {
         text='Proof (all declarations accepted by init x all candidate values, all paths) that Int/Real/Decimal/StrConverter.validate and '
              'Attribute/Required.validate accept a value iff it satisfies the declared min/max, integer size and signedness, max_len, nullability, '
              'required-ness and custom check, returning the normalised value, else raise ValueError; plus ground call-site obligations that creation, '
-             'assignment, set(), get(), exists() and select(**kw) pass through attr.validate.',
+             'assignment, set(), get(), exists() and select(**kw) pass through attr.validate. BOUNDED value table for the Date / Datetime / Time / Timedelta / Bool / Blob / Uuid converters '
+             '(exact declared type, documented normal form, idempotent, wrong types rejected).',
         note='Ints mathematical, floats IEEE binary64 (bounds not NaN), Decimals exact reals (Decimal(d)==d stubbed), strings with uninterpreted length and '
              'strip (len(strip(s)) <= len(s)); max_len >= 1; py_check is an arbitrary boolean effect or one of 9 enumerated non-bool results judged by truth value. Type coercions of ill-typed values (str -> int, __index__) not covered.'),
     'C18': dict(
@@ -118,7 +119,7 @@ CLAIMS = {
              'states for objects of length <= 3/4 (Set.reverse_add / reverse_remove incl. do;undo == identity, db_reverse_add / db_reverse_remove incl. the phantom refusal), '
              'and both-ends agreement of the whole session (every pair of reverse attributes, every pair of loaded objects) after each of 30 modification scenarios on a model '
              'with one-to-one (required and optional), many-to-one, many-to-many and cascade relationships, on success and on every raising path incl. injected callee failures; '
-             'histories of <= 2 (thorough 3) relationship operations under 6 load states (objects loaded, known by key only, not known) checked against a dict of the links made and the raw rows.',
+             'histories of <= 2 (thorough 3) relationship operations under 6 load states (objects loaded, known by key only, not known) checked against a dict of the links made and the raw rows.; one-to-one (re)assignments from either side with and without cascade_delete when both objects already have partners.',
         note='No unbounded obligation: the quantifier over all histories is outside the technique; K objects per call and the scenario set are the bounds. Recursive maintenance through '
              '__set__ / _delete_ is exercised only by the scenarios.',
         technique='contracts on real functions, bounded exhaustive state enumeration (contract-based family, bounded stand-in)'),
